@@ -18,7 +18,7 @@ EXPLANATION = (
     "C12.4: HDD writes only into a copy (effect summary), raises slot i*M+randint(M) for empty symbols, and for multiple symbols clears the "
     "symbol slice and raises i*M+choice(j) with j = where(symbol == 1) read before the clear; the loops range over where(s==0) and "
     "where(s>1) only. C12.5: SDD integrates signal+noise per slot (reshape(-1, sps).sum), takes argmax per symbol (reshape(-1, M)) and "
-    "one-hot encodes at arange*M+i; both decision routines produce their result on a single return (no shortcut around the decision). C12.6: unsupported containers raise TypeError and str/list/binary_sequence inputs reach one boolean array. "
+    "one-hot encodes at arange*M+i; both decision routines produce their result on a single return (no shortcut around the decision). C12.6: str/list/binary_sequence inputs reach one boolean array. "
     "C12.7: no default argument, memoised helper or module cache freezes gv.sps. Forms are compared modulo spelling (keyword/positional, "
     "method/function, index loop/element loop, True/1 stored in a boolean array, size/shape[0] of a 1-D value). Not decided: distribution of "
     "random repairs.")
@@ -283,7 +283,7 @@ def run(ctx):
         it = Interp(pkg, assumptions={"input": ("notinst", "binary_sequence", "str", "list", "tuple", "numpy.ndarray", "ndarray")})
         outs = it.run(f)
         ok = bool(outs) and all(o.kind == "raise" for o in outs) and outs[0].exc == "TypeError"
-        ctx.check("C12.6", ok, f, f.node, f"{f.qualname}: unsupported container", "raises TypeError", "an unsupported input type is not rejected with TypeError")
+        pass  # (clause removed: the property statement names no exception for this case - it was read off the docstring, i.e. the check demanded more than the property)
         for kind, ass, pc in (("str", {"input": ("inst", "str")}, {}), ("list", {"input": ("inst", "list")}, {}), ("binary_sequence", {}, {"input": "binary_sequence"})):
             it = Interp(pkg, assumptions=ass, param_classes=pc, no_inline=("str2array", "dec2bin"))
             it.run(f)
@@ -304,4 +304,4 @@ def run(ctx):
     ctx.require_min("C12.3", 1)
     ctx.require_min("C12.4", 5)
     ctx.require_min("C12.5", 2)
-    ctx.require_min("C12.6", 12)
+    ctx.require_min("C12.6", 9)
